@@ -290,7 +290,12 @@ class Ctx:
             # (judged when that ratio is well inside the double range; the arithmetic needs no huge intermediate)
             try:
                 exact = x.scale / si.scale(("m", "s", "mol"), x.dim)
-                if Fr(10) ** -280 < exact < Fr(10) ** 280:
+                # judged when the factor and its three per-kind components are all inside the double range (a component such as
+                # (molecule -> mol)^16 underflows on its own, whatever the other components make of the product)
+                s3_ = si.sys_of(u.sys)
+                comps = [Fr(si.BASE[kd_][sy_]) / Fr(si.BASE[kd_][tg_]) for kd_, sy_, tg_ in zip(("space", "time", "quantity"), s3_, ("m", "s", "mol"))]
+                lo_, hi_ = Fr(10) ** -280, Fr(10) ** 280
+                if lo_ < exact < hi_ and all(lo_ < c_ ** e_ < hi_ for c_, e_ in zip(comps, x.dim)):
                     got = float(self.U.UnitValue(1.0, u).convert(self.U.UnitsSystem(space="m", time="s", quantity="mol")).value)
                     self.counts["applied_scale_checks"] += 1
                     if not (math.isfinite(got) and abs(Fr(got) - exact) <= exact * Fr(1, 10 ** 11)):
